@@ -152,3 +152,43 @@ EXPECTED_REFUTED = {
     P + ':bad_sum_to : loop#0 invariant[preserved]',
     P + ':bad_all_positive : loop#0 invariant[preserved]',
 }
+
+
+def ok_numbered(lines):
+    n = 0
+    for line in lines:
+        n += 1
+        yield n, line
+
+
+from pyvc.api import IterOf  # noqa: E402
+
+M.contract(P + ':ok_numbered', params=dict(lines=IterOf(Str)), yields=ListOf(FixedList(Int, Str, as_tuple=True)),
+           ensures={'all-lines-numbered-from-1': lambda lines, yielded:
+           len(yielded) == len(lines.xs) and forall_range(0, len(yielded), lambda k:
+           yielded[k][0] == k + 1 and yielded[k][1] == lines.xs[k])},
+           raises_only=())
+M.loop(P + ':ok_numbered', 0,
+       invariant=lambda _i, n, lines, yielded: n == _i and len(yielded) == _i and forall_range(
+           0, len(yielded), lambda k: yielded[k][0] == k + 1 and yielded[k][1] == lines.xs[k]),
+       modifies=dict(n=Int, line='local', yielded='len'))
+
+
+def bad_numbered(lines):
+    n = 0
+    for line in lines:
+        yield n, line
+        n += 1
+
+
+M.contract(P + ':bad_numbered', params=dict(lines=IterOf(Str)), yields=ListOf(FixedList(Int, Str, as_tuple=True)),
+           ensures={'all-lines-numbered-from-1': lambda lines, yielded:
+           len(yielded) == len(lines.xs) and forall_range(0, len(yielded), lambda k:
+           yielded[k][0] == k + 1 and yielded[k][1] == lines.xs[k])},
+           raises_only=())
+M.loop(P + ':bad_numbered', 0,
+       invariant=lambda _i, n, lines, yielded: n == _i and len(yielded) == _i and forall_range(
+           0, len(yielded), lambda k: yielded[k][0] == k + 1 and yielded[k][1] == lines.xs[k]),
+       modifies=dict(n=Int, line='local', yielded='len'))
+
+EXPECTED_REFUTED.add(P + ':bad_numbered : loop#0 invariant[preserved]')
